@@ -72,6 +72,69 @@ def lookupJ (k : List UInt8) : List (List UInt8 × Json) → Option Json
   | [] => none
   | (k', v) :: r => if k' = k then some v else lookupJ k r
 
+/-! ### the walker of `get_many_rec` / `get_many_keys` / `get_many_index`, on the tree the text denotes
+
+  The text scanning (`skip_one`, `parse_str`, separators) is C02/C10's subject; here the document is
+  the specification's tree and a recorded value is the subtree (its span in the implementation).
+  `none` = the call fails (not an object/array where the path set needs one, empty container,
+  index beyond the array). -/
+
+abbrev WSt := List (Option Json) × Nat      -- `out`, `remain`
+
+/-- first child of a node decides `PointerTreeInner::{Empty, Index, Key}` -/
+inductive Kind where | empty | index | key
+  deriving DecidableEq, Repr
+
+def kindOf : List (Step × Trie) → Kind
+  | [] => .empty
+  | (.idx _, _) :: _ => .index
+  | (.key _, _) :: _ => .key
+
+mutual
+def walk : Trie → Json → WSt → Option WSt
+  | t, v, st =>
+    if st.2 = 0 then some st                      -- `if *remain == 0 { return Ok(()) }`
+    else
+      (match kindOf t.kids, v with
+       | .empty, _ => some st                     -- skip_one
+       | .index, .arr (x :: xs) =>
+         (walkElems t.kids (x :: xs) 0 0 st).bind fun r =>
+           if r.2 < t.kids.length then none else some r.1      -- GetIndexOutOfArray
+       | .index, _ => none                        -- not an array / GetInEmptyArray
+       | .key, .obj (m :: ms) => walkMembers t.kids (m :: ms) st
+       | .key, _ => none).map fun st' => fillSlots v t.order st'
+def walkElems (kids : List (Step × Trie)) : List Json → Nat → Nat → WSt → Option (WSt × Nat)
+  | [], _, visited, st => some (st, visited)
+  | x :: rest, index, visited, st =>
+    match findKid (.idx index) kids with
+    | some c =>
+      (match walk c x st with
+       | none => none
+       | some st' => if st'.2 = 0 then some (st', visited + 1)
+                     else walkElems kids rest (index + 1) (visited + 1) st')
+    | none => walkElems kids rest (index + 1) visited st
+def walkMembers (kids : List (Step × Trie)) : List (List UInt8 × Json) → WSt → Option WSt
+  | [], st => some st
+  | (k, x) :: rest, st =>
+    match findKid (.key k) kids with
+    | some c =>
+      (match walk c x st with
+       | none => none
+       | some st' => if st'.2 = 0 then some st' else walkMembers kids rest st')
+    | none => walkMembers kids rest st
+end
+
+/-- `get_many`: all slots empty, `remain = size` -/
+def getMany (paths : List (List Step)) (doc : Json) : Option (List (Option Json)) :=
+  (walk (build paths) doc (List.replicate paths.length none, paths.length)).map (·.1)
+
+/-- the single-path lookup on the tree: first member with an equal key, n-th element -/
+def lookJ : Json → List Step → Option Json
+  | v, [] => some v
+  | .obj ms, .key k :: r => (lookupJ k ms).bind fun x => lookJ x r
+  | .arr xs, .idx n :: r => (xs[n]?).bind fun x => lookJ x r
+  | _, _ => none
+
 mutual
 /-- the schema with every key present in the document replaced by the document's value
     (recursively for non-empty object schemas), every absent key left as it is -/
